@@ -105,8 +105,11 @@ P = {
        "typed nils and aggregates included), children's error values never modified (handle_keeps_child_errors). Ties: log "
        "histories over derivation trees with scripted children returning errors of 26 dynamic kinds; sched scripts (forced "
        "schedules with a controllable sink: the real outcome must be in the set the model computes); a -race stress oracle.",
-  note="that the code IS these protocols (no lock on the buffered path, exactly one select, the lock held across exactly the "
-       "sink's Write) is carried by the ties, not proved; isolation, no-tear and fan-out-continues hold by the shape of the "
+  note="that the code IS these protocols is DECIDED on every run about event tables regenerated from the typed SSA form of the "
+       "working tree (gossa/lockfacts -> Generated/Lock_tracelog.lean -> Props/C13Lock.lean: a caller's goroutine writes the sink "
+       "only where no delivery channel exists and then under the mutex on all paths; on the buffered path it does one "
+       "non-blocking send holding nothing; one go statement; no handler field is written after construction), the extractor "
+       "being trusted; isolation, no-tear and fan-out-continues hold by the shape of the "
        "transcribed code, with contrast variants showing each failure is expressible; stack-trace lines follow only when no "
        "WithGroup is in force (reading, Appendix B); 'one line' holds unless the message, keys, group names or non-string "
        "values contain a line feed, which the code writes raw (reading, Appendix B); a sink panic in the buffered delivery "
@@ -153,7 +156,11 @@ P = {
        "reachable. Tie: lock-step bursts through the fused scheduler RL.exec (proved to take only steps of the relation); "
        "forced schedules of the Close-vs-tick window (the model giving the set of outcomes of all interleavings); a model-free "
        "stress oracle in child processes, also under -race.",
-  note="Go scheduler/select/mutex fairness only as hypotheses about the scheduler; timing-ambiguous bursts are discarded as "
+  note="that every access of the Go code to the waiting list and to a limiter's children/capacity/used/last/closed - callers and "
+       "ticker goroutine, through every helper - happens under the one controller lock on ALL paths, that the lock is never "
+       "re-acquired and that the blocking send/receive on done happen with the lock free is DECIDED on every run about tables "
+       "regenerated from the typed SSA form of the working tree (gossa/lockfacts -> Generated/Lock_rate.lean -> "
+       "Props/C16Lock.lean), the extractor being trusted; Go scheduler/select/mutex fairness only as hypotheses about the scheduler; timing-ambiguous bursts are discarded as "
        "inconclusive, never failed; answered/glog/capMax are history fields written by the model in the same step as the action "
        "they record (that the code's critical sections do the same is the transcription, checked by the tie); answer channels "
        "are not modelled as channels; read locks are treated as exclusive; LastUsed is specified for limiters still linked into "
@@ -261,7 +268,11 @@ P = {
        "record (unbracketed_writes_tear) and break the size accounting. Every Write runs under a deadline (a hang is an output, "
        "not a hung check); the whole directory (position-dependent record bytes) is compared after every operation.",
   note="the concurrent_* theorems are about a machine bracketed BY CONSTRUCTION: proved for the bracketed model, observed (not "
-       "proved) for the code - that rotator.go really takes the lock around every method is tied only by the stress oracle "
+       "proved) for the code. That rotator.go really takes the lock around every method is DECIDED on every run about lock-state "
+       "tables regenerated from the typed SSA form of the working tree (gossa/lockfacts -> lean/Generated/Lock_rotation.lean -> "
+       "Props/C12Lock.lean: every read/write/use of the file handle and the size counter happens with the mutex held on ALL "
+       "paths, no re-acquisition; consequence bodies_never_overlap by Lemmas/LockSound.lean), the extractor (about 2000 lines of "
+       "Go over go/ssa) being trusted to bound the lock state soundly; the concrete search for a failing schedule is the stress oracle "
        "(2-12 writer goroutines with Close and Sync alongside, judged by the theorem's conclusion: whole records, per-goroutine "
        "order, size bound, directory equal to the sequential rule), with and without -race; file-system error paths and "
        "WithMask are not modelled.",
@@ -402,7 +413,13 @@ P = {
        "(batch-capable, panicking with 7 kinds of panic value, two re-entrant ones that call any method back from inside "
        "HandleNotification/BatchMode), priorities up to the int limits, names up to 4 KiB / 300 segments, are run against the "
        "Go code (black-box calls received + a rename-robust white-box dump with a black-box fallback).",
-  note="memory-level race freedom of the Go code is NOT proved: the logical half (linearizability under the lock bracket, "
+  note="the lock discipline of the Go code is DECIDED on every run about tables regenerated from the typed SSA form of the "
+       "working tree (gossa/lockfacts -> Generated/Lock_notifier.lean -> Props/C17Lock.lean: every access to the three maps, "
+       "current batch, batch level and enabled flag under the lock on ALL paths - writes exclusive, reads at least shared - "
+       "except READS of the elements of a slice copied out under the lock; no map access unlocked; targets called with the lock "
+       "free on every path; no re-acquisition; by Lemmas/LockSound.lean no write ever coincides with another locked access), the "
+       "extractor being trusted and the snapshot element reads staying with -race. Beyond that, memory-level race freedom is not "
+       "proved: the logical half (linearizability under the lock bracket, "
        "unlocked delivery touching only its own snapshot) is proved for the model, and the code is observed by a -race stress "
        "run whose judge is the linearizability theorem's conclusion (a DFS must find one order, respecting program order and "
        "real time, that explains every delivered list, BatchMode broadcast and result); snapshots are immutable values in the "
